@@ -146,6 +146,11 @@ void h_zck_get_missing_range(void) {
     IN_mr in = nondet_IN_mr();
     zckCtx *zck = mk_target(&in);
     V_ASSUME(in.max_ranges >= -1 && in.max_ranges <= VERIF_N + 1);
+#ifdef VERIF_MID_PRESENT
+    /* quick-tier slice of the N = 3 table: the middle chunk is not missing, so that two separate
+     * ranges (and the limit cutting between them) are inside the slice */
+    V_ASSUME(in.nc == VERIF_N && in.valid[1] != 0 && in.clen[1] > 0);
+#endif
     zckRange *r = zck_get_missing_range(zck, in.max_ranges);
 #ifdef VERIF_NO_OOM
     V_ASSERT((r != NULL) == (in.anyz.error_state == 0), "C10.zck_get_missing_range.answers_iff_context_is_usable");
@@ -154,7 +159,11 @@ void h_zck_get_missing_range(void) {
     if(r != NULL) {
         check_request(&in, r);
         V_COVER(r->count == (VERIF_N + 1) / 2 && in.max_ranges == -1);     /* as many separate ranges as the table allows */
+#ifndef VERIF_MID_PRESENT
         V_COVER(r->count == 1 && r->index.count == VERIF_N);                 /* everything merged into one range */
+#else
+        V_COVER(r->count == 2 && in.max_ranges == 2);                        /* two separate ranges, exactly at the limit */
+#endif
         V_COVER(r->count == 1 && in.max_ranges == 1 && in.nc == VERIF_N && in.valid[VERIF_N - 1] == 0 && r->index.count == 1);   /* limit cut the request short */
         V_COVER(r->count == 0 && in.nc == VERIF_N);
         V_COVER(in.max_ranges == 0);
